@@ -116,6 +116,12 @@ func c04Signers() []c04Signer {
 			ca := c04CA(kind)
 			return ca, []*world.Ident{ca, p.Root}, nil, nil // signer = the leaf itself (a leaf without keyUsage and basicConstraints)
 		}},
+		{"end-entity-alone-in-its-chain-names-itself", false, func(kind string) (*world.Ident, []*world.Ident, []*x509.Certificate, *world.Ident) {
+			// the client certificate is the only certificate of the presented chain (a pinned trust anchor) and signs a
+			// CRL issued in its own name: an end-entity is never a CRL signer
+			ca := c04CA(kind)
+			return ca, nil, nil, nil
+		}},
 		{"unrelated-key", false, func(kind string) (*world.Ident, []*world.Ident, []*x509.Certificate, *world.Ident) {
 			ca := c04CA(kind)
 			un := world.Issue(nil, world.CertOpt{CN: "unrelated " + kind, IsCA: true, KeyKind: kind, KeyIdx: 4, Serial: big.NewInt(33)})
@@ -186,12 +192,16 @@ func c04Doc(c c04Case) (doc []byte, leaf *world.Ident, chain [][]*x509.Certifica
 	if signer == nil {
 		signer = leaf
 	}
+	crlIssuer := issuer
+	if strings.Contains(sg.Name, "names-itself") {
+		crlIssuer = leaf
+	}
 	ids := append([]*world.Ident{leaf}, extra...)
 	chain = world.Chain(ids...)
 	spec := &world.CRLSpec{
 		Version:    2,
 		Alg:        c.Alg,
-		IssuerRaw:  issuer.Cert.RawSubject,
+		IssuerRaw:  crlIssuer.Cert.RawSubject,
 		ThisUpdate: vsched.Epoch.Add(-time.Hour),
 		NextUpdate: vsched.Epoch.Add(24 * time.Hour),
 		Entries:    []world.RevEntry{{Serial: big.NewInt(101), Date: vsched.Epoch.Add(-2 * time.Hour)}, {Serial: big.NewInt(105), Date: vsched.Epoch.Add(-2 * time.Hour)}},
